@@ -1,1 +1,67 @@
 from props.proto_rt import *
+
+# ----------------------------------------------------------------------------- last sentence of C13: clean streams through the real protocols with real readers
+def _run_protocol(cands, chunks, payload_proto=True):
+    import asyncio
+    from han import meter_connection as mc
+    loop = asyncio.new_event_loop(); asyncio.set_event_loop(loop)
+    try:
+        q = asyncio.Queue(); proto = (mc.SmartMeterMessagePayloadProtocol if payload_proto else mc.SmartMeterMessageProtocol)(q, cands)
+        for ch in chunks: proto.data_received(ch)
+        got = []
+        while not q.empty(): got.append(q.get_nowait())
+        return got
+    finally:
+        loop.close()
+
+def _candidates(order, cfg):
+    from han import hdlc, dlde
+    return [hdlc.HdlcFrameReader(*cfg), dlde.ModeDReader()] if order == "HP" else [dlde.ModeDReader(), hdlc.HdlcFrameReader(*cfg)] if order == "PH" else [hdlc.HdlcFrameReader(*cfg)] if order == "H" else [dlde.ModeDReader()]
+
+def clean_stream_selection(p):
+    """bounded: clean HDLC streams (frames whose payload holds no '/': see the known finding for the excluded case) and clean P1 streams through both protocol classes with candidate
+    lists [HDLC], [P1], [HDLC, P1], [P1, HDLC]: the queue receives every message's non-empty payload (message protocol: every message)"""
+    import random
+    from props.c02_rt import gen_frame
+    from props.c16_rt import stuff
+    from props import spec_py as sp
+    rnd = random.Random(p.get("seed", 0)); n = p.get("n", 120); ev = 0; bad = []
+    for it in range(n):
+        cfg = (bool(it & 1), bool(it & 2)); hd = it % 3 != 0
+        if hd:
+            frames = []
+            while len(frames) < rnd.randrange(1, 5):
+                fr, meta = gen_frame(rnd, cfg)
+                if b"/" not in meta["info"]: frames.append((fr, meta))
+            wire = b"\x7e" * rnd.randrange(1, 3)
+            for fr, _ in frames: wire += (stuff(fr) if cfg[0] else fr) + b"\x7e" * rnd.randrange(1, 3)
+            want = [m["info"] for _, m in frames if m["info"]]; orders = ("H", "HP", "PH")
+        else:
+            ros = []
+            for _ in range(rnd.randrange(1, 5)):
+                body = rnd.choice([b"/AUX5UXXXXXXXXXXXXXXX", b"/KFM5KAIFA-METER", b"/ABC5"]) + b"\r\n\r\n" + b"".join(rnd.choice([b"1-0:1.8.0(00006678.394*kWh)", b"0-0:1.0.0(210217184019W)"]) + b"\r\n" for _ in range(rnd.randrange(0, 6))) + b"!"
+                ros.append(body + (b"%04X" % sp.crc16_arc(body)) + b"\r\n")
+            wire = b"".join(ros); orders = ("P", "HP", "PH")
+            from han import dlde
+            want = [dlde.DataReadout(r).payload for r in ros]; want = [w for w in want if w]
+        cuts = sorted(rnd.sample(range(len(wire) + 1), min(len(wire) + 1, rnd.randrange(0, 6)))); chunks = [wire[a:b] for a, b in zip([0] + cuts, cuts + [len(wire)])]
+        for order in orders:
+            ev += 1; got = _run_protocol(_candidates(order, cfg), chunks, True)
+            if got != want:
+                bad.append({"stream": "HDLC" if hd else "P1", "cfg": list(cfg), "candidates": order, "cuts": cuts, "wire": wire.hex()[:240], "queue": [g.hex()[:40] for g in got][:4], "expected": [w.hex()[:40] for w in want][:4]}); break
+        if bad: break
+    return {"name": "clean streams through the real protocols and readers, every candidate order", "bound": f"{n} generated clean streams (HDLC frames without '/' in the payload, four configurations; P1 readouts) x candidate lists x random chunkings",
+            "evaluations": ev, "distinct_nontrivial": ev, "violations": bad[:2]}
+
+def selection_known_finding(p):
+    """the known counterexample to the last sentence of C13: a clean HDLC stream whose first frame carries a complete valid P1 readout as its payload"""
+    from props import spec_py as sp
+    ro = b"/ABC5\r\n\r\n1-0:1.8.0(1*kWh)\r\n!"; ro += (b"%04X" % sp.crc16_arc(ro)) + b"\r\n"
+    def frame(info):
+        ln = 2 + 1 + 1 + 1 + 2 + len(info) + 2; hdr = bytes([0xA0 | (ln >> 8), ln & 0xFF]) + b"\x03\x21\x13"; h = sp.fcs16(hdr); fr = hdr + bytes([h & 0xFF, h >> 8]) + info; f = sp.fcs16(fr); return fr + bytes([f & 0xFF, f >> 8])
+    f1, f2 = frame(ro), frame(b"\xe6\xe7\x00\x0fhello"); wire = b"\x7e" + f1 + b"\x7e" + f2 + b"\x7e"; want = [ro, b"\xe6\xe7\x00\x0fhello"]; bad = []; ev = 0
+    for order, cut in (("PH", None), ("HP", len(f1) - 1)):
+        chunks = [wire] if cut is None else [wire[:cut], wire[cut:]]; ev += 1
+        got = _run_protocol(_candidates(order, (False, True)), chunks, True)
+        if got != want: bad.append({"candidates": order, "cut": cut, "wire": wire.hex(), "queue": [g.decode("latin1") for g in got], "expected": [w.decode("latin1") for w in want]})
+    return {"name": "frame carrying a P1 readout (known finding)", "bound": "one stream, candidate orders [P1, HDLC] (one call) and [HDLC, P1] (cut inside the first frame)", "evaluations": ev, "distinct_nontrivial": ev, "violations": bad[:1]}
